@@ -759,15 +759,3 @@ Proof.
   rewrite Ec. unfold o1, obj_reverse. cbv zeta. cbn [o_dim o_rat]. destruct o; reflexivity.
 Qed.
 
-Print Assumptions reverse_eval.
-Print Assumptions reverse_eval_upd.
-Print Assumptions reverse_eval_clear.
-Print Assumptions reverse_eval_knot.
-Print Assumptions reverse_eval_interior.
-Print Assumptions reverse_eval_end.
-Print Assumptions reverse_eval_start.
-Print Assumptions reverse_domain.
-Print Assumptions reverse_wf.
-Print Assumptions reverse_involution_basis.
-Print Assumptions apply_rev_twice.
-Print Assumptions reverse_involution.
